@@ -64,11 +64,17 @@ fn base_dates(tier: Tier) -> Vec<D> {
             v.push((2021, 1, 30));
         }
         Tier::Thorough => {
-            for y in [2020i64, 2021] {
+            for y in [2019i64, 2020, 2021, 2023, 2024] {
                 for m in 1..=12 {
                     for d in 1..=cal::days_in_month(y, m) {
                         v.push((y, m, d));
                     }
+                }
+            }
+            for y in [2i64, 400, 1600, 1999, 2001, 2399, 2400, 9998] {
+                for m in 1..=12 {
+                    v.push((y, m, cal::days_in_month(y, m)));
+                    v.push((y, m, 1));
                 }
             }
         }
@@ -101,7 +107,7 @@ impl Prop for C09 {
         // reading ---------------------------------------------------------------------------
         {
             let mut dates: Vec<D> = Vec::new();
-            for y in tier.pick(vec![2020i64], vec![2019i64, 2020]) {
+            for y in tier.pick(vec![2020i64], vec![2019i64, 2020, 2021, 2024, 1900, 2000]) {
                 for m in 1..=12 {
                     for d in 1..=cal::days_in_month(y, m) {
                         dates.push((y, m, d));
@@ -118,7 +124,7 @@ impl Prop for C09 {
             f.push(Family::new(
                 "read-dmy",
                 Mode::Full,
-                &format!("d/m/y (with and without zero padding) for {} dates (every day of {:?}, month ends of years 1, 1900, 2000, 2100, 9999, {}) in every language", n, tier.pick(vec![2020], vec![2019, 2020]), CLOCK_YEAR),
+                &format!("d/m/y (with and without zero padding) for {} dates (every day of {:?}, month ends of years 1, 1900, 2000, 2100, 9999, {}) in every language", n, tier.pick(vec![2020], vec![2019, 2020, 2021, 2024, 1900, 2000]), CLOCK_YEAR),
                 move |ch| {
                     let l = ch.pick(&langs).clone();
                     let d = *ch.pick(&dates);
@@ -193,15 +199,19 @@ impl Prop for C09 {
             f.push(Family::new(
                 "plus-minus",
                 Mode::Full,
-                &format!("{} base dates x offsets (days 0..=40, 59, 60, 100, 365, 366, 1000; weeks 0..=8, 52, 53; months 0..=25, 36, 120; years 0..=5, 100) x (+, -): N days/weeks = exactly that many days; N months/years = same day of month, month/year moved (unspecified if that day does not exist)", nb),
+                &format!("{} base dates x offsets (quick: days 0..=40, 59, 60, 100, 365, 366, 1000; weeks 0..=8, 52, 53; months 0..=25, 36, 120; years 0..=5, 100 / thorough: days 0..=70, 100, 364..366, 730, 1000, 10000; weeks 0..=20, 52, 53, 104, 1000; months 0..=49, 60, 120, 600, 1200; years 0..=12, 50, 100, 400, 1000) x (+, -): N days/weeks = exactly that many days; N months/years = same day of month, month/year moved (unspecified if that day does not exist)", nb),
                 move |ch| {
                     let base = *ch.pick(&bases);
                     let unit = ch.choose(4);
-                    let ns: Vec<i64> = match unit {
-                        0 => (0..=40).chain([59, 60, 100, 365, 366, 1000].into_iter()).collect(),
-                        1 => (0..=8).chain([52, 53].into_iter()).collect(),
-                        2 => (0..=25).chain([36, 120].into_iter()).collect(),
-                        _ => (0..=5).chain([100].into_iter()).collect(),
+                    let ns: Vec<i64> = match (unit, tier) {
+                        (0, Tier::Quick) => (0..=40).chain([59, 60, 100, 365, 366, 1000].into_iter()).collect(),
+                        (1, Tier::Quick) => (0..=8).chain([52, 53].into_iter()).collect(),
+                        (2, Tier::Quick) => (0..=25).chain([36, 120].into_iter()).collect(),
+                        (_, Tier::Quick) => (0..=5).chain([100].into_iter()).collect(),
+                        (0, Tier::Thorough) => (0..=70).chain([100, 364, 365, 366, 730, 1000, 10000].into_iter()).collect(),
+                        (1, Tier::Thorough) => (0..=20).chain([52, 53, 104, 1000].into_iter()).collect(),
+                        (2, Tier::Thorough) => (0..=49).chain([60, 120, 600, 1200].into_iter()).collect(),
+                        (_, Tier::Thorough) => (0..=12).chain([50, 100, 400, 1000].into_iter()).collect(),
                     };
                     let n = *ch.pick(&ns);
                     let plus = ch.flag();
@@ -275,7 +285,7 @@ impl Prop for C09 {
         // difference ----------------------------------------------------------------------------
         {
             let mut ds: Vec<D> = Vec::new();
-            let n = tier.pick(24, 80);
+            let n = tier.pick(24, 400);
             // spread over 1999..2031 with month ends and leap days
             let mut z = cal::days_from_civil(1999, 12, 30);
             for i in 0..n {
@@ -302,7 +312,7 @@ impl Prop for C09 {
         {
             let langs = langs.clone();
             let mut clocks: Vec<i64> = Vec::new();
-            let years: Vec<i64> = tier.pick(vec![2024], vec![2024, 2025]);
+            let years: Vec<i64> = tier.pick(vec![2024], vec![2023, 2024, 2025, 2100]);
             for y in years.iter() {
                 for m in 1..=12 {
                     for d in 1..=cal::days_in_month(*y, m) {
